@@ -45,7 +45,7 @@ func runC16(c *mon.Ctx) {
 
 	// The slab is sized for the largest sequence of the tier (fresh memory is
 	// expensive under -race: every new heap page needs four shadow pages).
-	m := &c16{c: c, slab: make([]byte, c.N(4<<20, 36<<20))}
+	m := &c16{c: c, slab: make([]byte, c.N(2<<20, 36<<20))}
 	// VERIF_ARMS=grid,big,... restricts the run to some arms (debugging / replay aid;
 	// a restricted run is reported inconclusive, never held).
 	armOn := func(string) bool { return true }
@@ -66,10 +66,10 @@ func runC16(c *mon.Ctx) {
 		}
 	}
 
-	// ---- grid: all lengths 4..2048 step 4 for every protocol x wrap. Quick: two
+	// ---- grid: all lengths 4..2048 step 4 for every protocol x wrap. Quick: three
 	// shuffled passes over all lengths, the schedule class rotating from sequence to
 	// sequence (every class meets every protocol x wrap, every length meets every
-	// protocol x wrap twice). Thorough: every class x 3 passes.
+	// protocol x wrap three times). Thorough: every class x 3 passes.
 	arm("grid", func() {
 		var gridLens []int
 		for n := 4; n <= 2048; n += 4 {
@@ -77,7 +77,7 @@ func runC16(c *mon.Ctx) {
 		}
 		for _, ps := range protos {
 			for wrap := 0; wrap < nWrap; wrap++ {
-				passes, rot := 2, true
+				passes, rot := 3, true
 				if !c.Quick() {
 					passes, rot = 3*nSched, false
 				}
@@ -109,7 +109,7 @@ func runC16(c *mon.Ctx) {
 	})
 
 	// ---- big: 2^k and 2^k+-4. Quick: k = 12..16 per protocol x wrap (schedule and
-	// delta rotating) and 2^20-4, 2^20, 2^20+4 once per protocol; thorough: k = 12..24
+	// delta rotating) and one frame of 2^20-4 / 2^20 / 2^20+4 per protocol; thorough: k = 12..24
 	// for 5 schedules x 3 deltas.
 	arm("big", func() {
 		bigKinds := []int{skAll, skRandBig, skBoundM1, skBound0, skBoundP1}
@@ -140,7 +140,7 @@ func runC16(c *mon.Ctx) {
 				sd := next()
 				m.reset()
 				pr := c.RandN("c16/payload", sd)
-				m.runSeq(seqCase{ps: ps, wrap: pi % nWrap, arm: "big", payloads: [][]byte{m.payload(pr, 0, 0, 1<<20-4), m.payload(pr, 0, 1, 1<<20), m.payload(pr, 0, 2, 1<<20+4)},
+				m.runSeq(seqCase{ps: ps, wrap: pi % nWrap, arm: "big", payloads: [][]byte{m.payload(pr, 0, 0, 1<<20+4*(pi%3-1))},
 					kind: []int{skBoundM1, skBoundP1, skRandBig, skBound0}[pi%4], reuse: true, seed: sd})
 			}
 		}
@@ -168,7 +168,7 @@ func runC16(c *mon.Ctx) {
 
 	// ---- random sequences
 	arm("random", func() {
-		nRandom := c.N(1500, 150000)
+		nRandom := c.N(2500, 150000)
 		for i := 0; i < nRandom; i++ {
 			sd := next()
 			m.reset()
@@ -253,7 +253,7 @@ func runC16(c *mon.Ctx) {
 
 	// ---- concurrent senders on one Conn
 	arm("concurrent", func() {
-		reps := c.N(3, 150)
+		reps := c.N(2, 150)
 		for _, ps := range protos {
 			for _, v := range variantsOf(ps) {
 				if v == tvListenCodec {
